@@ -46,10 +46,11 @@ const (
 	wsLoopIdx            // [if n.F != nil {] for i := 0; i < len(n.F); i++ { Walk(v, n.F[i]) } [}]
 	wsLoopIdxAddr        // same with Walk(v, &n.F[i])
 	wsLoopRange          // for _, item := range n.F { Walk(v, item) }
-	wsLoopWrap           // for _, item := range n.F { if item.A != nil {..} else if .. else { Walk(v, &item.C) } }
+	wsLoopWrap           // for _, item := range n.F { if item.A != nil {..} else if .. else { Walk(v, &item.C) } }   (item is a COPY)
+	wsLoopWrapAddr       // for i := range n.F { item := &n.F[i]; if item.A != nil {..} else if .. else { Walk(v, &item.C) } }
 )
 
-var wsNames = []string{"SDirect", "SAddr", "SGuard", "SLoopIdx", "SLoopIdxAddr", "SLoopRange", "SLoopWrap"}
+var wsNames = []string{"SDirect", "SAddr", "SGuard", "SLoopIdx", "SLoopIdxAddr", "SLoopRange", "SLoopWrap", "SLoopWrapAddr"}
 
 type wField struct {
 	Name     string
@@ -675,26 +676,65 @@ func (r *walkReader) readArm(t *wType, body []ast.Stmt) error {
 				return err
 			}
 		case *ast.RangeStmt:
-			if s.Tok != token.DEFINE || !isIdent(s.Key, "_") || s.Value == nil {
-				return r.errf(s, "range loop is not `for _, item := range n.F`")
+			if s.Tok != token.DEFINE {
+				return r.errf(s, "range loop does not define its variables")
 			}
-			item, ok := s.Value.(*ast.Ident)
 			f, ok2 := selOf(s.X, r.n)
-			if !ok || !ok2 || len(s.Body.List) != 1 {
-				return r.errf(s, "range loop is not `for _, item := range n.F { <one statement> }`")
+			if !ok2 {
+				return r.errf(s, "range loop is not over a field of %s", r.n)
 			}
-			if arg, ok := r.walkCall(s.Body.List[0]); ok {
-				if !isIdent(arg, item.Name) {
-					return r.errf(s, "range loop body is not `Walk(%s, %s)`", r.v, item.Name)
+			var item *ast.Ident
+			var ifs *ast.IfStmt
+			wrapShape := wsLoopWrap
+			if key, isId := s.Key.(*ast.Ident); isId && key.Name != "_" && s.Value == nil {
+				// for i := range n.F { item := &n.F[i]; if item.A != nil ... }
+				if len(s.Body.List) != 2 {
+					return r.errf(s, "index range loop is not `for i := range n.F { item := &n.F[i]; <if/else chain> }`")
 				}
-				if err := add(s, wsLoopRange, f); err != nil {
-					return err
+				as, ok := s.Body.List[0].(*ast.AssignStmt)
+				if !ok || as.Tok != token.DEFINE || len(as.Lhs) != 1 || len(as.Rhs) != 1 {
+					return r.errf(s, "first statement of the index range loop is not `item := &n.F[i]`")
 				}
-				continue
-			}
-			ifs, ok := s.Body.List[0].(*ast.IfStmt)
-			if !ok {
-				return r.errf(s, "range loop body is neither a Walk call nor an if/else chain over the element")
+				it, ok := as.Lhs[0].(*ast.Ident)
+				u, ok1 := as.Rhs[0].(*ast.UnaryExpr)
+				if !ok || !ok1 || u.Op != token.AND {
+					return r.errf(s, "first statement of the index range loop is not `item := &n.F[i]`")
+				}
+				ix, ok := u.X.(*ast.IndexExpr)
+				if !ok || !isIdent(ix.Index, key.Name) {
+					return r.errf(s, "first statement of the index range loop is not `item := &n.F[i]`")
+				}
+				if g, ok := selOf(ix.X, r.n); !ok || g != f {
+					return r.errf(s, "first statement of the index range loop is not `item := &n.%s[i]`", f)
+				}
+				ifs, ok = s.Body.List[1].(*ast.IfStmt)
+				if !ok {
+					return r.errf(s, "second statement of the index range loop is not an if/else chain over the element")
+				}
+				item = it
+				wrapShape = wsLoopWrapAddr
+			} else {
+				if !isIdent(s.Key, "_") || s.Value == nil {
+					return r.errf(s, "range loop is not `for _, item := range n.F`")
+				}
+				it, ok := s.Value.(*ast.Ident)
+				if !ok || len(s.Body.List) != 1 {
+					return r.errf(s, "range loop is not `for _, item := range n.F { <one statement> }`")
+				}
+				item = it
+				if arg, ok := r.walkCall(s.Body.List[0]); ok {
+					if !isIdent(arg, item.Name) {
+						return r.errf(s, "range loop body is not `Walk(%s, %s)`", r.v, item.Name)
+					}
+					if err := add(s, wsLoopRange, f); err != nil {
+						return err
+					}
+					continue
+				}
+				ifs, ok = s.Body.List[0].(*ast.IfStmt)
+				if !ok {
+					return r.errf(s, "range loop body is neither a Walk call nor an if/else chain over the element")
+				}
 			}
 			fields, shapes, err := r.altChain(ifs, item.Name)
 			if err != nil {
@@ -732,7 +772,7 @@ func (r *walkReader) readArm(t *wType, body []ast.Stmt) error {
 			wt.Visits = []wVisit{v}
 			wt.Alts = [][]int{grp}
 			t.Fields[fi].Kind = wkListW
-			if err := add(s, wsLoopWrap, f); err != nil {
+			if err := add(s, wrapShape, f); err != nil {
 				return err
 			}
 		default:
@@ -866,7 +906,8 @@ func (ws *WalkSchema) coq() string {
 	}
 	sb.WriteString("   The struct Scope itself is not a node type (it has no JS method).\n\n")
 	sb.WriteString("   WRAPPER types implement INode syntactically but are never passed to Enter: Walk handles them\n")
-	sb.WriteString("   inline in the element loop of their parent (`for _, item := range n.List { if item.A != nil ... }`).\n")
+	sb.WriteString("   inline in the element loop of their parent (`for i := range n.List { item := &n.List[i]; if item.A != nil ... }`;\n")
+	sb.WriteString("   the by-value form `for _, item := range n.List { ... }` is translated as SLoopWrap: its elements are COPIES).\n")
 	sb.WriteString("   ALTERNATIVE groups are the fields of one if/else-if/else chain of walk.go (at most one is set). *)\n")
 	sb.WriteString("From Coq Require Import List.\nFrom Verif Require Import Walk.Schema.\nImport ListNotations.\n\n")
 	fmt.Fprintf(&sb, "Definition gen_ntypes : nat := %d.\n\n", len(ws.Types))
